@@ -50,15 +50,15 @@ func residualVarFor(key, fnKey, form string, occ int) (varResidual, bool) {
 
 var c11ResidualVar = map[string]varResidual{
 	"yqlib.applyAssignment/rhs.GetPath()[pathIndexToStartFrom:] low":       {"upper", "p4.GetPath()[p2:] low", "DESCENDANT: rhs is a result of the recursive descent over the merge operand with DontFollowAlias (kept true by C04-M5), so its path extends the path of the first result, whose length is pathIndexToStartFrom", 1},
-	"yqlib.capture/subNames[j + 1]":                                        {"upper", "‹p1.SubexpNames()›[‹key of ‹‹elem of ‹#0 of getMatches(p0, p1, p3)››[1:]›› + 1]", "REGEXP: SubexpNames() has NumSubexp()+1 entries and every submatch list has NumSubexp()+1 entries; j ranges over submatches[1:]", 1},
-	"yqlib.capture/subNames[j + 1]#2":                                      {"upper", "‹p1.SubexpNames()›[‹key of ‹‹elem of ‹#0 of getMatches(p0, p1, p3)››[1:]›› + 1]", "REGEXP: as above", 2},
+	"yqlib.capture/subNames[j + 1]":                                        {"upper", "‹p1.SubexpNames()›[1 + ‹key of ‹‹elem of ‹#0 of getMatches(p0, p1, p3)››[1:]››]", "REGEXP: SubexpNames() has NumSubexp()+1 entries and every submatch list has NumSubexp()+1 entries; j ranges over submatches[1:]", 1},
+	"yqlib.capture/subNames[j + 1]#2":                                      {"upper", "‹p1.SubexpNames()›[1 + ‹key of ‹‹elem of ‹#0 of getMatches(p0, p1, p3)››[1:]››]", "REGEXP: as above", 2},
 	"yqlib.capture/allIndices[i]":                                          {"upper", "‹#1 of getMatches(p0, p1, p3)›[‹key of ‹#0 of getMatches(p0, p1, p3)››]", "REGEXP: FindAllStringSubmatch and FindAllStringSubmatchIndex (resp. the single-match forms) return parallel lists; i ranges over allMatches", 1},
-	"yqlib.capture/allIndices[i][2 + j * 2]":                               {"upper", "‹#1 of getMatches(p0, p1, p3)›[‹key of ‹#0 of getMatches(p0, p1, p3)››][2 + ‹key of ‹‹elem of ‹#0 of getMatches(p0, p1, p3)››[1:]›› * 2]", "REGEXP: an index list has 2*(NumSubexp()+1) entries; j ranges over the NumSubexp() submatches", 1},
+	"yqlib.capture/allIndices[i][2 + j * 2]":                               {"upper", "‹#1 of getMatches(p0, p1, p3)›[‹key of ‹#0 of getMatches(p0, p1, p3)››][(2 * ‹key of ‹‹elem of ‹#0 of getMatches(p0, p1, p3)››[1:]››) + 2]", "REGEXP: an index list has 2*(NumSubexp()+1) entries; j ranges over the NumSubexp() submatches", 1},
 	"yqlib.match/allIndices[i]":                                            {"upper", "‹#1 of getMatches(p0, p1, p3)›[‹key of ‹#0 of getMatches(p0, p1, p3)››]", "REGEXP: parallel result lists; i ranges over allMatches", 1},
 	"yqlib.match/allIndices[i]#2":                                          {"upper", "‹#1 of getMatches(p0, p1, p3)›[‹key of ‹#0 of getMatches(p0, p1, p3)››]", "REGEXP: parallel result lists; i ranges over allMatches", 2},
-	"yqlib.match/allIndices[i][2 + j * 2]":                                 {"upper", "‹#1 of getMatches(p0, p1, p3)›[‹key of ‹#0 of getMatches(p0, p1, p3)››][2 + ‹key of ‹‹elem of ‹#0 of getMatches(p0, p1, p3)››[1:]›› * 2]", "REGEXP: an index list has 2*(NumSubexp()+1) entries; j ranges over the NumSubexp() submatches", 1},
-	"yqlib.match/subNames[j + 1]":                                          {"upper", "‹p1.SubexpNames()›[‹key of ‹‹elem of ‹#0 of getMatches(p0, p1, p3)››[1:]›› + 1]", "REGEXP: SubexpNames() has NumSubexp()+1 entries; j ranges over submatches[1:]", 1},
-	"yqlib.containsObject/lhs.Content[lhsKeyIndex + 1]":                    {"upper", "p0.Content[‹findInArray(p0, ‹p1.Content[‹0›]›)› + 1]", "PAIR: lhsKeyIndex is a position returned by findInArray (so < len) that was tested even; children of a mapping come in key/value pairs", 1},
+	"yqlib.match/allIndices[i][2 + j * 2]":                                 {"upper", "‹#1 of getMatches(p0, p1, p3)›[‹key of ‹#0 of getMatches(p0, p1, p3)››][(2 * ‹key of ‹‹elem of ‹#0 of getMatches(p0, p1, p3)››[1:]››) + 2]", "REGEXP: an index list has 2*(NumSubexp()+1) entries; j ranges over the NumSubexp() submatches", 1},
+	"yqlib.match/subNames[j + 1]":                                          {"upper", "‹p1.SubexpNames()›[1 + ‹key of ‹‹elem of ‹#0 of getMatches(p0, p1, p3)››[1:]››]", "REGEXP: SubexpNames() has NumSubexp()+1 entries; j ranges over submatches[1:]", 1},
+	"yqlib.containsObject/lhs.Content[lhsKeyIndex + 1]":                    {"upper", "p0.Content[1 + ‹findInArray(p0, ‹p1.Content[‹0›]›)›]", "PAIR: lhsKeyIndex is a position returned by findInArray (so < len) that was tested even; children of a mapping come in key/value pairs", 1},
 	"yqlib.evalOperator/expressions[expIndex]":                             {"upper", "‹make([]*ExpressionNode, ‹#0 of p0.GetMatchingNodes(p1.ReadOnlyClone(), p2.RHS)›.MatchingNodes.Len())›[‹0›]", "LISTLEN: made with MatchingNodes.Len() slots and expIndex counts the elements of that same list", 1},
 	"yqlib.reverseOperator/reverseContent[len(candidate.Content) - i - 1]": {"both", "‹make([]*CandidateNode, len(‹‹p1.MatchingNodes.Front()›.Value.(*CandidateNode)›.Content))›[len(‹‹p1.MatchingNodes.Front()›.Value.(*CandidateNode)›.Content) - ‹key of ‹‹p1.MatchingNodes.Front()›.Value.(*CandidateNode)›.Content› - 1]", "MIRROR: made with len(candidate.Content) slots and i ranges over candidate.Content, so len-i-1 is in [0, len-1]", 1},
 	"yqlib.shuffleOperator$1/a[i]":                                         {"both", "‹‹‹‹^p1.MatchingNodes.Front()›.Value.(*CandidateNode)›.Copy()›.Content›[p0]", "SHUFFLE: math/rand.Shuffle(len(a), swap) calls swap with 0 <= i, j < len(a)", 1},
@@ -66,8 +66,8 @@ var c11ResidualVar = map[string]varResidual{
 	"yqlib.shuffleOperator$1/a[j]":                                         {"both", "‹‹‹‹^p1.MatchingNodes.Front()›.Value.(*CandidateNode)›.Copy()›.Content›[p1]", "SHUFFLE: as above", 1},
 	"yqlib.shuffleOperator$1/a[j]#2":                                       {"both", "‹‹‹‹^p1.MatchingNodes.Front()›.Value.(*CandidateNode)›.Copy()›.Content›[p1]", "SHUFFLE: as above", 2},
 	"yqlib.sortKeys/keys[index / 2]":                                       {"upper", "‹make([]string, len(p0.Content) / 2)›[‹0› / 2]", "HALF: keys has len(Content)/2 slots and index is an even position below len(Content)", 1},
-	"yqlib.sortKeys/sortedContent[index * 2]":                              {"upper", "‹make([]*CandidateNode, len(p0.Content))›[‹0› * 2]", "HALF: sortedContent has len(Content) slots, index < len(keys) = len(Content)/2", 1},
-	"yqlib.sortKeys/sortedContent[1 + (index * 2)]":                        {"upper", "‹make([]*CandidateNode, len(p0.Content))›[1 + (‹0› * 2)]", "HALF: as above; len(Content) is even for a mapping", 1},
+	"yqlib.sortKeys/sortedContent[index * 2]":                              {"upper", "‹make([]*CandidateNode, len(p0.Content))›[2 * ‹0›]", "HALF: sortedContent has len(Content) slots, index < len(keys) = len(Content)/2", 1},
+	"yqlib.sortKeys/sortedContent[1 + (index * 2)]":                        {"upper", "‹make([]*CandidateNode, len(p0.Content))›[(2 * ‹0›) + 1]", "HALF: as above; len(Content) is even for a mapping", 1},
 	"yqlib.sortableNodeArray.Less/a[i]":                                    {"both", "recv[p0]", "SORT: package sort calls Less/Swap with 0 <= i, j < Len(), and Len() is len(a)", 1},
 	"yqlib.sortableNodeArray.Less/a[i]#2":                                  {"both", "recv[p0]", "SORT: as above", 2},
 	"yqlib.sortableNodeArray.Less/a[j]":                                    {"both", "recv[p1]", "SORT: as above", 1},
@@ -76,8 +76,8 @@ var c11ResidualVar = map[string]varResidual{
 	"yqlib.sortableNodeArray.Swap/a[j]":                                    {"both", "recv[p1]", "SORT: as above", 1},
 	"yqlib.sortableNodeArray.Swap/a[j]#2":                                  {"both", "recv[p1]", "SORT: as above", 2},
 	"yqlib.traverseArrayWithIndices/node.Content[indexToUse]":              {"upper", "p1.Content[‹‹#0 of parseInt(‹elem of p2›.Value)››]", "PADDED: an index at or past the end either pads the array up to it (writable) or leaves the loop iteration (read-only); a negative one is len+index < len", 1},
-	"yqlib.trimNonGraphic/[]rune(s)[*first:last + 1] low":                  {"both", "[]rune(p0)[*‹var *int›:‹var int› + 1] low", "RANGEPOS: first and last are positions of the range loop over []rune(s), first <= last", 1},
-	"yqlib.trimNonGraphic/[]rune(s)[*first:last + 1] high":                 {"upper", "[]rune(p0)[*‹var *int›:‹var int› + 1] high", "RANGEPOS: last is a position of the range loop over []rune(s)", 1},
+	"yqlib.trimNonGraphic/[]rune(s)[*first:last + 1] low":                  {"both", "[]rune(p0)[*‹var *int›:1 + ‹var int›] low", "RANGEPOS: first and last are positions of the range loop over []rune(s), first <= last", 1},
+	"yqlib.trimNonGraphic/[]rune(s)[*first:last + 1] high":                 {"upper", "[]rune(p0)[*‹var *int›:1 + ‹var int›] high", "RANGEPOS: last is a position of the range loop over []rune(s)", 1},
 }
 
 // residual index sites: key -> invariant that makes the access safe
